@@ -281,8 +281,8 @@ def judge(ctx, workloads, runs, results):
 def run(ctx):
     wd = ctx.workdir()
     model_check(ctx, wd)
-    ngate = 180 if ctx.quick else 2000
-    nextra = 40 if ctx.quick else 400
+    ngate = 180 if ctx.quick else 3000
+    nextra = 40 if ctx.quick else 600
     workloads = handmade()
     workloads += [generate(random.Random(120000 + i), f"gate-{i}") for i in range(ngate)]
     workloads += [generate(random.Random(ctx.rng.getrandbits(48)), f"seed-{ctx.seed}-{i}")
